@@ -38,8 +38,8 @@ def plan(ctx):
         bfs('bfs1-o1-full', MaxLen=1, Orders=frozenset({1}), Alpha='full')
         bfs('bfs1-o234', MaxLen=1, Orders=frozenset({2, 3, 4}), Alpha='tiny')
         bfs('bfs2-op', MaxLen=2, OpDims=frozenset({1, 2}), Alpha='tiny')
-        sim('sim-t', 100, Orders=allo, NSeeds=1, NInit=1)
-        sim('sim-op', 25, OpDims=frozenset({1, 2, 3}), NSeeds=1, NInit=2, MaxLen=6)
+        sim('sim-t', 250, Orders=allo, NSeeds=1, NInit=1)
+        sim('sim-op', 60, OpDims=frozenset({1, 2, 3}), NSeeds=1, NInit=2, MaxLen=6)
     else:
         bfs('bfs2-o1', MaxLen=2, Orders=frozenset({1}), Alpha='small', NInit=2)
         bfs('bfs2-o2', MaxLen=2, Orders=frozenset({2}), Alpha='tiny', workers=4)
